@@ -2,6 +2,7 @@ import Model
 import Spec
 import Gen
 import Proofs.Sctp
+import Props.C05
 /-!
   C19 — SCTP multistream: every message is assembled from one stream, in order.
   `Model.Sctp`: the association is the list of data chunks `(stream, bytes)` still to come, in
@@ -70,6 +71,41 @@ theorem C19_complete (d : DictFn) (picks : List (Option Nat)) (s : SS) (hw : s.w
   rw [h2] at hdone
   rw [splitMsgs_done d s.fin _ _ hdone j]
   exact h1.symm
+
+/-- the reference split of a concatenation of complete messages (`C05.Whole`) is that list of
+    messages, however many more it is asked for -/
+theorem splitMsgs_whole (d : DictFn) (fin : Fin) (wms : List (Bytes × Msg))
+    (hw : ∀ p ∈ wms, C05.Whole d p.1 p.2) (j : Nat) :
+    splitMsgs d (wms.length + j) (wms.map Prod.fst).flatten fin = wms.map Prod.snd := by
+  induction wms with
+  | nil =>
+    cases j with
+    | zero => simp [splitMsgs]
+    | succ j => cases fin <;> simp [splitMsgs, splitStep]
+  | cons p ps ih =>
+    have hp := hw p (List.mem_cons_self)
+    have hps : ∀ q ∈ ps, C05.Whole d q.1 q.2 := fun q hq => hw q (List.mem_cons_of_mem _ hq)
+    have e : (p :: ps).length + j = (ps.length + j) + 1 := by simp; omega
+    rw [e]
+    simp only [List.map_cons, List.flatten_cons]
+    rw [splitMsgs, C05.splitStep_whole d p.1 _ fin p.2 hp]
+    simp only [List.drop_left, ih hps]
+
+/-- **Every stream's messages, whole and in order.** If the bytes of stream σ - in whatever
+    chunks, interleaved in whatever way with the chunks of other streams, served in whatever order
+    by the buffer heap - are the concatenation of complete messages, and nothing of σ is left
+    when the reader loop stops, then the messages delivered with tag σ are exactly those messages,
+    in that order: none lost, duplicated or mixed with another stream's bytes. -/
+theorem C19_whole_streams (d : DictFn) (picks : List (Option Nat)) (s : SS) (hw : s.wf) (σ : Nat)
+    (wms : List (Bytes × Msg)) (hwm : ∀ p ∈ wms, C05.Whole d p.1 p.2)
+    (hb : s.streamBytes σ = (wms.map Prod.fst).flatten)
+    (hdone : (s.readLoopS d picks).2.streamBytes σ = []) :
+    onStream σ (s.readLoopS d picks).1 = wms.map Prod.snd := by
+  have h1 := C19_complete d picks s hw σ hdone wms.length
+  have h2 := splitMsgs_whole d s.fin wms hwm (onStream σ (s.readLoopS d picks).1).length
+  rw [hb] at h1
+  rw [Nat.add_comm] at h2
+  rw [← h1, h2]
 
 /-- how the source uses the streams, regenerated: the header is read from ANY stream and the
     stream is pinned; the body is read from that stream; `ReadAtLeast` = one `ReadAny` (only when
